@@ -165,6 +165,60 @@ def reduce_trig(p, pairs):
     return p
 
 
+def reduce_sqrt(p, sq):
+    """Normal form modulo s^2 = t for (s index, Poly t) pairs (s = sqrt(t))."""
+    changed = True
+    guard = 0
+    while changed and guard < 50:
+        changed = False
+        guard += 1
+        out = Poly()
+        for m, coef in p.t.items():
+            d = dict(m)
+            hit = None
+            for s_ in sq:
+                if d.get(s_, 0) >= 2:
+                    hit = s_
+                    break
+            if hit is None:
+                out = out + Poly({m: coef})
+                continue
+            changed = True
+            d[hit] -= 2
+            if d[hit] == 0:
+                del d[hit]
+            out = out + Poly({tuple(sorted(d.items())): coef}) * sq[hit]
+        p = out
+    return p
+
+
+def combine_exp(p, atoms):
+    """exp(a)^n exp(b)^m -> exp(n a + m b): every monomial keeps at most one exp
+    atom whose argument is in polynomial normal form (law exp(x+y) = exp(x) exp(y))."""
+    byidx = {i: t for s_, (i, t) in atoms.items()}
+    exps = {i: t for i, t in byidx.items() if z3.is_app(t) and t.decl().name() == "exp" and t.num_args() == 1}
+    if not exps:
+        return p
+    out = Poly()
+    for m, coef in p.t.items():
+        arg = Poly()
+        rest = []
+        for v, e in m:
+            if v in exps:
+                arg = arg + to_poly(exps[v].arg(0), atoms).scale(e)
+            else:
+                rest.append((v, e))
+        if arg.is_zero():
+            out = out + Poly({tuple(rest): coef})
+            continue
+        key = "exp!nf!" + repr(sorted((tuple(mm), str(cc)) for mm, cc in arg.t.items()))
+        if key not in atoms:
+            atoms[key] = (len(atoms), z3.Real("expnf!%d" % len(atoms)))
+        rest.append((atoms[key][0], 1))
+        out = out + Poly({tuple(sorted(rest)): coef})
+    return out
+
+
 def split_goal(goal):
     """Conjunction of equalities -> list of (lhs, rhs) or None."""
     if z3.is_and(goal):
@@ -203,9 +257,20 @@ def decide(goal, trig_pairs=()):
             pairs.append((ms[0][0], mc[0][0]))
     except (NotPolynomial, ValueError):
         return "unknown", None
+    # sqrt atoms: s^2 -> radicand
+    sq = {}
+    for sx, (i, t) in list(atoms.items()):
+        if z3.is_app(t) and t.decl().name() == "sqrt" and t.num_args() == 1:
+            try:
+                sq[i] = to_poly(t.arg(0), atoms)
+            except NotPolynomial:
+                pass
     bad = []
     for d in diffs:
         r = reduce_trig(d, pairs)
+        if sq:
+            r = reduce_trig(reduce_sqrt(r, sq), pairs)
+        r = combine_exp(r, atoms)
         if not r.is_zero():
             bad.append(r)
     if not bad:
